@@ -29,8 +29,10 @@ type Rec struct {
 	// Session label (to tell sessions apart on the tape).
 	Session string
 	// Gate, when set, makes the first SetShareData call park (tape event "setshare-parked") until it is closed.
-	Gate <-chan struct{}
+	Gate  <-chan struct{}
 	gated bool
+	// Hook, when set, is called synchronously at the named points of the instance's life: "init", "setshare", "run".
+	Hook func(point string)
 	// SelfParty, when set, is the party identifier this instance stands for
 	// (harness knowledge from the membership map); otherwise the factory
 	// argument is used. Payloads carry it as sender.
@@ -107,6 +109,9 @@ func (r *Rec) ClassifyMsg(b []byte) (uint8, bool, error) {
 }
 
 func (r *Rec) Init(parties []uint16, threshold int, sendMsg func(msg []byte, isBroadcast bool, to uint16)) {
+	if r.Hook != nil {
+		r.Hook("init")
+	}
 	r.w.Mu.Lock()
 	r.parties = append([]uint16(nil), parties...)
 	r.send = sendMsg
@@ -130,6 +135,9 @@ func (r *Rec) OnMsg(b []byte, from uint16, broadcast bool) {
 }
 
 func (r *Rec) SetShareData(d []byte) error {
+	if r.Hook != nil {
+		r.Hook("setshare")
+	}
 	if r.Gate != nil && !r.gated {
 		r.gated = true
 		r.Tape.add(Event{Kind: "setshare-parked", Node: r.Node, Party: r.Party, Session: r.Session})
@@ -157,6 +165,9 @@ func (r *Rec) self() uint16 {
 }
 
 func (r *Rec) run(ctx context.Context) error {
+	if r.Hook != nil {
+		r.Hook("run")
+	}
 	defer func() {
 		r.w.Mu.Lock()
 		r.returned = true
